@@ -911,5 +911,54 @@ theorem reduced_entries (objs : List (LinObj α)) (hwf : ObjsWF objs) (F : List 
 
 end evidence
 
+/-! ### the unregularized index list is strictly ascending; the pixel count of `reduced_chi_squared` -/
+section extras
+variable {α : Type}
+
+theorem noRegFrom_ge (objs : List (LinObj α)) (off i : Nat) (h : i ∈ Spec.Fit.noRegFrom off objs) :
+    off ≤ i := by
+  induction objs generalizing off with
+  | nil => simp [Spec.Fit.noRegFrom] at h
+  | cons o os ih =>
+    simp only [Spec.Fit.noRegFrom, List.mem_append] at h
+    rcases h with h | h
+    · cases hr : o.reg.isNone
+      · simp [hr] at h
+      · simp only [hr, if_true, List.mem_range'_1] at h; exact h.1
+    · have := ih (off + o.params) h; omega
+
+theorem noRegFrom_sorted (objs : List (LinObj α)) (off : Nat) :
+    (Spec.Fit.noRegFrom off objs).Pairwise (· < ·) := by
+  induction objs generalizing off with
+  | nil => simp [Spec.Fit.noRegFrom]
+  | cons o os ih =>
+    simp only [Spec.Fit.noRegFrom]
+    rw [List.pairwise_append]
+    refine ⟨?_, ih _, ?_⟩
+    · cases o.reg.isNone
+      · simp
+      · simp only [if_true]; exact List.pairwise_lt_range'
+    · intro a ha b hb
+      have hb' := noRegFrom_ge os _ b hb
+      cases hr : o.reg.isNone
+      · simp [hr] at ha
+      · simp only [hr, if_true, List.mem_range'_1] at ha; omega
+
+theorem count_unmasked (bits : List Bool) :
+    bits.length - (bits.filter id).length = (bits.filter fun b => !b).length := by
+  induction bits with
+  | nil => rfl
+  | cons b bs ih =>
+    have hle : (bs.filter id).length ≤ bs.length := List.length_filter_le _ _
+    cases b
+    · simp only [List.filter_cons, id, Bool.false_eq_true, if_false, Bool.not_false, if_true,
+        List.length_cons]
+      omega
+    · simp only [List.filter_cons, id, if_true, Bool.not_true, Bool.false_eq_true, if_false,
+        List.length_cons]
+      omega
+
+end extras
+
 end FitProofs
 end Model
